@@ -117,3 +117,16 @@ impl<K: ExpiredKey<E>, E: Expiration, V: Copy> KeyExpList<K, E, V> {
         self.min_exp = new_min_exp;
     }
 }
+
+#[cfg(ishape_rust_itree_verif)]
+impl<K: ExpiredKey<E>, E: Expiration, V: Copy> KeyExpList<K, E, V> {
+    /// Verification hook: build a list directly from (key, value) pairs sorted by key and a cached earliest expiration.
+    pub fn verif_from_raw(entries: Vec<(K, V)>, min_exp: E) -> Self {
+        Self { buffer: entries.into_iter().map(|(k, v)| Entity::new(k, v)).collect(), min_exp }
+    }
+
+    /// Verification hook (read-only): the stored (key, value) pairs in storage order and the cached earliest expiration.
+    pub fn verif_snapshot(&self) -> (Vec<(K, V)>, E) {
+        (self.buffer.iter().map(|e| (e.key, e.val)).collect(), self.min_exp)
+    }
+}
